@@ -5,6 +5,7 @@ import gen_dict
 import gen_commands
 import gen_psm
 import gen_split
+import gen_tbcd
 
 if __name__ == "__main__":
     print("PyFuns:", gen_pyfuns.generate()[:2])
@@ -12,3 +13,4 @@ if __name__ == "__main__":
     print("Commands:", gen_commands.generate()[0])
     print("Psm:", gen_psm.generate())
     print("Split:", gen_split.generate())
+    print("Tbcd:", gen_tbcd.generate())
